@@ -1,8 +1,15 @@
 """Transaction histories on the real code (C03, C04): executor, canonical output, generator, oracles.
 
 A case is {"config", "init": [command lines], "events": [event lines]} in the protocol of
-lean/Drivers/C03.lean.  Model keys: user keys are the even numbers (0 -> 'a', 2 -> 'c', 4 -> 'e'; name =
-memhist.KEYNAMES[k]), reserved keys are odd: ':serializable:lock' <-> 1, ':tx_lock:<name of k>' <-> k + 3.
+lean/Drivers/C03.lean.  Model keys: user keys are the even numbers (0 -> 'ka', 2 -> 'kb1', 4 -> 'kb2': `NAMES`, the
+same naming as `keyName` of lean/CashewsVerif/Driver/Tx.lean), reserved keys are odd: ':serializable:lock' <-> 1,
+':tx_lock:<name of k>' <-> k + 3.
+
+Pattern commands (`delmatch <pat>`, `scan <pat>`, `getmatch <pat>`; <pat> encoded as `x<code point>.<code point>...`)
+are commands like any other: inside a block they go to the transaction, and to the direct copy as well.  The names
+share prefixes so that patterns select one, two, all or none of the keys ('k*', 'kb*', 'ka', 'k*2', 'x*', ...); every
+generated pattern starts with a literal character other than ':', so it cannot reach the reserved lock keys (the
+properties' proviso).  `scan` answers `ks=<model keys, ascending>`, `get_match` `kv=<key>=<value>;...`.
 
 Blocks: `enter <mode>` opens `async with cache.transaction(mode):` on a context object of its own, `enter <mode> dec`
 runs the block as the body of a function decorated with `@cache.transaction(mode)`, `enter <mode> @<i>` opens
@@ -39,11 +46,43 @@ import sys
 from collections import OrderedDict
 
 from . import memhist, vtime
-from .memhist import KEYNAMES, SENT, show_val
+from .memhist import SENT, show_val, ttl_of, val_of
 from .vtime import BASE, CLOCK
 
 TIMEOUT_TICKS = 80  # Cache.transaction_timeout = 10 s
 USER_KEYS = [0, 2, 4]
+NAMES = {0: "ka", 2: "kb1", 4: "kb2"}          # = keyName of lean/CashewsVerif/Driver/Tx.lean
+_BY_NAME = {v: k for k, v in NAMES.items()}
+
+
+def tx_name(k) -> str:
+    return NAMES[int(k)]
+
+
+def enc(s: str) -> str:
+    """a pattern on the wire (as in harness/globcase.py / Drivers/C13.lean)"""
+    return "x" + ".".join(str(ord(c)) for c in s)
+
+
+def dec(tok: str) -> str:
+    return "".join(chr(int(x)) for x in tok[1:].split(".")) if len(tok) > 1 else ""
+
+
+def pyglob(pat: str, key: str) -> bool:
+    """the property's reading of a pattern: '*' = any run of characters, everything else literal, whole key"""
+    if not pat:
+        return not key
+    if pat[0] == "*":
+        return any(pyglob(pat[1:], key[i:]) for i in range(len(key) + 1))
+    return bool(key) and key[0] == pat[0] and pyglob(pat[1:], key[1:])
+
+
+RESERVED_NAMES = [":serializable:lock"] + [f":tx_lock:{n}" for n in NAMES.values()]
+
+
+def pattern_safe(pat: str) -> bool:
+    """the proviso: the pattern does not reach the transaction's own ':'-prefixed lock keys"""
+    return not any(pyglob(pat, r) for r in RESERVED_NAMES)
 
 CONFIGS = {
     "facade": "mem://?size=1000&check_interval=0",
@@ -79,11 +118,9 @@ ENDS = ("ok", "exc", "base", "cancel", "falsy")
 def model_key(name: str):
     if name == ":serializable:lock":
         return 1
-    if name.startswith(":tx_lock:") and name[9:] in KEYNAMES and len(name) == 10:
-        return KEYNAMES.index(name[9:]) + 3
-    if len(name) == 1 and name in KEYNAMES:
-        return KEYNAMES.index(name)
-    return None
+    if name.startswith(":tx_lock:") and name[9:] in _BY_NAME:
+        return _BY_NAME[name[9:]] + 3
+    return _BY_NAME.get(name)
 
 
 def block_kind(w: list[str]) -> str:
@@ -151,20 +188,99 @@ class _SameObjects:
         return await self._api.set_many({k: sys.intern(v) if isinstance(v, str) else v for k, v in pairs.items()}, **kw)
 
 
-class _Exec(memhist.Runner):
-    """memhist's executor + reads with a caller-supplied default (`get <k> d=<val>`, `getmany <k>... d=<val>`)"""
+PATTERN_CMDS = ("delmatch", "scan", "getmatch")
+WRITE_CMDS = ("set", "setmany", "incr", "delete", "delmany", "expire", "delmatch")
+
+
+def show_keys(keys) -> str:
+    """what `scan` yielded: model keys ascending; a name outside the universe or a repetition is shown as such"""
+    keys = list(keys)
+    known = sorted(model_key(k) for k in keys if model_key(k) is not None)
+    odd = sorted("?" + repr(k) for k in keys if model_key(k) is None)
+    if len(set(keys)) != len(keys):
+        odd.append("?dup")
+    return "ks=" + ",".join([str(k) for k in known] + odd)
+
+
+def show_pairs(pairs) -> str:
+    pairs = list(pairs)
+    out = sorted((model_key(k), f"{model_key(k)}={show_val(v)}") for k, v in pairs if model_key(k) is not None)
+    odd = sorted(f"?{k!r}" for k, _ in pairs if model_key(k) is None)
+    if len({k for k, _ in pairs}) != len(pairs):
+        odd.append("?dup")
+    return "kv=" + ";".join([x for _, x in out] + odd)
+
+
+class _Exec:
+    """one protocol command on a `Cache` facade: the regular commands of memhist's executor (over the key names
+    `NAMES`), reads with a caller-supplied default (`get <k> d=<val>`, `getmany <k>... d=<val>`) and the pattern
+    commands"""
+
+    def __init__(self, api, backend):
+        self.api, self.backend = api, backend
 
     async def _exec(self, w: list[str]) -> str:
+        api = self.api
         w, d = split_default(w)
-        if d is None:
-            return await super()._exec(w)
-        default = value_object(d)
-        if w[0] == "get":
-            return "v=" + show_val(await self.api.get(KEYNAMES[int(w[1])], default=default))
-        if w[0] == "getmany":
-            r = await self.api.get_many(*[KEYNAMES[int(x)] for x in w[1:]], default=default)
+        default = SENT if d is None else value_object(d)
+        op = w[0]
+        if d is not None and op not in ("get", "getmany"):
+            raise ValueError(f"bad op {w}: only reads take a default")
+        if op == "set":
+            k, v, ttl, c = tx_name(w[1]), val_of(w[2]), ttl_of(w[3]), {"a": None, "nx": False, "xx": True}[w[4]]
+            r = await api.set(k, v, expire=ttl, exist=c)
+            return "T" if r is True else "F" if r is False else f"?{r!r}"
+        if op == "setmany":
+            pairs = {}
+            for kv in w[2:]:
+                k, v = kv.split("=")
+                pairs[tx_name(k)] = val_of(v)
+            r = await api.set_many(pairs, expire=ttl_of(w[1]))
+            return "U" if r is None else f"?{r!r}"
+        if op == "get":
+            return "v=" + show_val(await api.get(tx_name(w[1]), default=default))
+        if op == "getmany":
+            r = await api.get_many(*[tx_name(x) for x in w[1:]], default=default)
             return "vs=" + ",".join(show_val(v) for v in r)
-        raise ValueError(f"bad op {w}: only reads take a default")
+        if op == "exists":
+            r = await api.exists(tx_name(w[1]))
+            return "T" if r is True else "F" if r is False else f"?{r!r}"
+        if op == "incr":
+            try:
+                r = await api.incr(tx_name(w[1]), int(w[2]), expire=ttl_of(w[3]))
+            except (ValueError, TypeError):
+                return "E"
+            return f"n={r}" if type(r) is int else f"?{r!r}"
+        if op == "delete":
+            r = await api.delete(tx_name(w[1]))
+            return "T" if r is True else "F" if r is False else f"?{r!r}"
+        if op == "delmany":
+            r = await api.delete_many(*[tx_name(x) for x in w[1:]])
+            return "U" if r is None else f"?{r!r}"
+        if op == "expire":
+            t = ttl_of(w[2])
+            await api.expire(tx_name(w[1]), t if t is not None else 0)
+            return "U"
+        if op == "getexpire":
+            r = await api.get_expire(tx_name(w[1]))
+            return f"n={r}" if type(r) is int else f"?{r!r}"
+        if op == "delmatch":
+            r = await api.delete_match(dec(w[1]))
+            return "U" if r is None else f"?{r!r}"
+        if op == "scan":
+            return show_keys([k async for k in api.scan(dec(w[1]))])
+        if op == "getmatch":
+            return show_pairs([(k, v) async for k, v in api.get_match(dec(w[1]))])
+        raise ValueError(f"bad op {w}")
+
+
+class _NothingPending:
+    """stands for a transaction backend that has not been created yet (statistics only)"""
+
+    class _local_cache:
+        store: dict = {}
+
+    _to_delete: frozenset = frozenset()
 
 
 class TxRunner:
@@ -178,6 +294,8 @@ class TxRunner:
         self.used_outer: set[str] = set()           # shared objects that have opened an outermost block
         self.after_reentry = False                  # a re-entered block of the owning object has ended, outer block still open
         self.after_explicit = ""                    # 'rollback' / 'commitnow' was called earlier in the block that is still open
+        self.seg_patterns: list[str] = []           # patterns of the delete_match calls of the running transaction segment
+        self.seg_marked: dict[str, set] = {}        # pattern -> store keys it marked for deletion in this segment
 
     def bump(self, k: str):
         self.stats[k] = self.stats.get(k, 0) + 1
@@ -254,7 +372,7 @@ class TxRunner:
         self.bump("read_with_caller_default")
         default = value_object(d)
         for x in w[1:]:
-            name = KEYNAMES[int(x)]
+            name = tx_name(x)
             ov = txb._local_cache.store.get(name)
             ent = self.backend.store.get(name)
             in_store = ent is not None and not (ent[0] is not None and ent[0] <= CLOCK.t)
@@ -267,17 +385,62 @@ class TxRunner:
             elif ov is None and name not in txb._to_delete:
                 self.bump("caller_default_read_of_unbuffered_key" if in_store else "caller_default_read_of_missing_key")
 
+    def _classify_pattern(self, txb, w: list[str]):
+        """interesting states of a pattern command inside a transaction (peeks, statistics only)"""
+        pat = dec(w[1])
+        live = {n for n, (exp, _v) in self.backend.store.items() if not (exp is not None and exp <= CLOCK.t)}
+        hits = [n for n in NAMES.values() if pyglob(pat, n)]
+        pending = set(txb._local_cache.store)
+        deleted = set(txb._to_delete)
+        if w[0] != "delmatch":
+            self.bump(f"{w[0]}_inside_transaction")
+            if any(n in pending for n in hits):
+                self.bump(f"{w[0]}_selects_a_pending_write")
+            if any(n in deleted and n in live for n in hits):
+                self.bump(f"{w[0]}_pattern_matches_a_pending_delete")
+            if any(n in pending and n in live for n in hits):
+                self.bump(f"{w[0]}_matching_key_pending_and_in_store")
+            return
+        self.bump("delete_match_inside_transaction")
+        if not hits or not any(n in pending or (n in live and n not in deleted) for n in hits):
+            self.bump("delete_match_matching_nothing_visible")
+        if any(n in pending and n not in live for n in hits):
+            self.bump("delete_match_of_a_key_only_pending")
+        if any(n in live and n not in pending and n not in deleted for n in hits):
+            self.bump("delete_match_of_a_key_only_in_store")
+        if any(n in live and n in pending for n in hits):
+            self.bump("delete_match_of_a_key_pending_and_in_store")
+        if any(n in live and n in deleted for n in hits):
+            self.bump("delete_match_of_a_pending_deleted_key")
+        if any(n in pending for n in hits) and not any(n in live for n in hits):
+            self.bump("delete_match_pending_match_but_no_store_match")           # seeded C03-9
+        if any(n in deleted and n in live and n not in hits for n in deleted):
+            self.bump("delete_match_after_pending_delete_of_a_non_matching_store_key")   # seeded C04-9
+        if pat in self.seg_patterns:
+            self.bump("delete_match_repeated_identical_pattern")
+            if any(n in live and n not in deleted for n in self.seg_marked.get(pat, ())):
+                self.bump("delete_match_repeated_after_a_marked_key_was_written_again")   # seeded C13-9
+        elif self.seg_patterns:
+            self.bump("delete_match_after_a_different_pattern")
+        self.seg_patterns.append(pat)
+        self.seg_marked.setdefault(pat, set()).update(n for n in hits if n in live)
+
     def _classify(self, w: list[str]):
         txb = self._txb()
         w, d = split_default(w)
+        if w[0] in PATTERN_CMDS:
+            if txb is None:      # the transaction backend is created by the first command: nothing is pending yet
+                txb = _NothingPending()
+            self._classify_pattern(txb, w)
+            return
         if txb is not None and d is not None:
             self._classify_default(txb, w, d)
         if txb is None or w[0] in ("adv", "getmany", "setmany", "delmany"):
             if txb is not None and w[0] == "getmany":
-                if any(KEYNAMES[int(x)] in txb._to_delete for x in w[1:]):
+                if any(tx_name(x) in txb._to_delete for x in w[1:]):
                     self.bump("get_many_with_pending_delete")
             return
-        name = KEYNAMES[int(w[1])]
+        name = tx_name(w[1])
         in_ov = name in txb._local_cache.store
         in_del = name in txb._to_delete
         ent = self.backend.store.get(name)
@@ -333,10 +496,8 @@ class TxRunner:
         self.direct = Cache()
         self.dbackend = self.direct.setup(url)
         await self.direct.init()
-        self.r_tx = _Exec("facade", 1000)
-        self.r_tx.api, self.r_tx.backend = _SameObjects(self.cache), self.backend
-        self.r_d = _Exec("facade", 1000)
-        self.r_d.api, self.r_d.backend = _SameObjects(self.direct), self.dbackend
+        self.r_tx = _Exec(_SameObjects(self.cache), self.backend)
+        self.r_d = _Exec(_SameObjects(self.direct), self.dbackend)
 
     async def _command(self, line: str, init: bool = False):
         w = line.split()
@@ -346,9 +507,9 @@ class TxRunner:
         else:
             if not init and self.frames:
                 self._classify(w)
-                if self.after_reentry and w[0] in ("set", "setmany", "incr", "delete", "delmany", "expire"):
+                if self.after_reentry and w[0] in WRITE_CMDS:
                     self.bump("write_after_reentered_block_ended")
-                if self.after_explicit and w[0] in ("set", "setmany", "incr", "delete", "delmany", "expire"):
+                if self.after_explicit and w[0] in WRITE_CMDS:
                     self.bump(f"write_after_explicit_{self.after_explicit}_in_the_same_block")
             try:
                 a = await self.r_tx._exec(w)
@@ -418,6 +579,7 @@ class TxRunner:
                 if not self.frames:
                     self.after_reentry = False
                     self.after_explicit = ""
+                    self.seg_patterns, self.seg_marked = [], {}
 
         res = "U"
         came_out = "ok"
@@ -482,6 +644,7 @@ class TxRunner:
                     res = f"X:{type(exc).__name__}"
                 self.trace.append((line, f"tx={res} " + await self.views()))
                 self.resync()
+                self.seg_patterns, self.seg_marked = [], {}
                 if self.frames:
                     self.after_explicit = w[0]
                 continue
@@ -655,12 +818,31 @@ def look_back(rng, w: list[str]) -> str:
     return f"{what} {key}"
 
 
-def gen_command(rng, ttls) -> str:
+# patterns over the names 'ka', 'kb1', 'kb2': all keys, two of them, one, none - each in several spellings; all of them
+# start with a literal character other than ':' (or are empty), so none reaches the reserved lock keys
+PATTERNS = ["k*", "k*", "kb*", "kb*", "ka", "ka*", "kb1", "kb2", "k*1", "k*2", "kb*2", "k**", "k*b*", "x*", "kc*", "k", ""]
+assert all(pattern_safe(p_) for p_ in PATTERNS)
+
+
+def gen_pattern(rng, recent: list[str] | None = None) -> str:
+    """a pattern; with `recent`, half of the time one used earlier in the same program (REPEATED identical patterns)"""
+    if recent and rng.random() < 0.5:
+        return rng.choice(recent)
+    p = rng.choice(PATTERNS)
+    if recent is not None:
+        recent.append(p)
+    return p
+
+
+def gen_command(rng, ttls, recent: list[str] | None = None) -> str:
     k = lambda: str(rng.choice(USER_KEYS))
     op = rng.choices(
-        ["set", "setnx", "setxx", "setmany", "get", "getmany", "exists", "incr", "delete", "delmany", "expire", "getexpire"],
-        [14, 9, 9, 5, 10, 6, 6, 12, 9, 3, 9, 8])[0]
+        ["set", "setnx", "setxx", "setmany", "get", "getmany", "exists", "incr", "delete", "delmany", "expire", "getexpire",
+         "delmatch", "scan", "getmatch"],
+        [14, 9, 9, 5, 10, 6, 6, 12, 9, 3, 9, 8, 9, 3, 3])[0]
     ttl = lambda: rng.choice(ttls)
+    if op in PATTERN_CMDS:
+        return f"{op} {enc(gen_pattern(rng, recent))}"
     if op == "set":
         return f"set {k()} {rng.choice(VALS)} {ttl()} a"
     if op == "setnx":
@@ -714,6 +896,7 @@ def gen_events(rng, maxlen: int, crossing: bool) -> list[str]:
     advs = [1, 1, 2, 3] if not crossing else [1, 2, 4, 8, 16]
     budget = 7 if not crossing else 10 ** 6
     modes = {k: rng.choice(MODES) for k in POOL}
+    recent: list[str] = []
 
     def enter(stack):
         kind = pick_kind(rng, stack)
@@ -724,7 +907,7 @@ def gen_events(rng, maxlen: int, crossing: bool) -> list[str]:
     used = 0
     for _ in range(rng.choice([1, 1, 1, 2, 2, 3])):
         if rng.random() < 0.2:
-            ev.append(gen_command(rng, ttls))          # a command outside any block
+            ev.append(gen_command(rng, ttls, recent))          # a command outside any block
         depth = rng.choice([1, 1, 1, 2, 2, 2, 3, 3, 4])
         stack: list[str] = []
         ev.append(enter(stack))
@@ -742,7 +925,7 @@ def gen_events(rng, maxlen: int, crossing: bool) -> list[str]:
                 if rng.random() < 0.5:
                     depth -= 1
                 if rng.random() < 0.5:
-                    ev.append(gen_command(rng, ttls))  # a command right after an inner block has ended
+                    ev.append(gen_command(rng, ttls, recent))  # a command right after an inner block has ended
             elif r < 0.42 and used < budget:
                 dt = min(rng.choice(advs), budget - used)
                 used += dt
@@ -750,7 +933,7 @@ def gen_events(rng, maxlen: int, crossing: bool) -> list[str]:
             elif r < 0.46:
                 ev.append(rng.choice(["rollback", "rollback", "commitnow"]))
             else:
-                c = gen_command(rng, ttls)
+                c = gen_command(rng, ttls, recent)
                 ev.append(c)
                 w = c.split()
                 if w[0] in ("set", "incr", "delete", "expire") and rng.random() < 0.3:
@@ -763,7 +946,7 @@ def gen_events(rng, maxlen: int, crossing: bool) -> list[str]:
             opened -= 1
         ev.append(f"exit {end}")
         if rng.random() < 0.3:
-            ev.append(f"getexpire {rng.choice(USER_KEYS)}")
+            ev.append(f"getexpire {rng.choice(USER_KEYS)}" if rng.random() < 0.7 else f"scan {enc('k*')}")
     return ev
 
 
@@ -849,3 +1032,60 @@ def _products(alphabet, n):
     for rest in _products(alphabet, n - 1):
         for a in alphabet:
             yield rest + (a,)
+
+
+# ----------------------------------------------------------------------------------------------------
+# delete_match inside a transaction, enumerated
+
+PAT_WRITES = ["set 0 t:9 - a", "set 2 t:9 16 a", "incr 4 1 -", "delete 0", "delete 2", "expire 2 16", "set 0 t:8 - nx",
+              "set 2 t:8 - xx", "delmany 0 4", "setmany - 2=t:7 4=t:7"]
+PAT_DELETES = ["k*", "kb*", "ka", "kb1", "x*"]
+
+
+def pattern_space():
+    """(initial store, [earlier write]?, delete_match p1, [write in between]?, [delete_match p2]?) - the index space of
+    `pattern_cases`: 8 initial stores (each of the three keys absent / present) x 11 x 5 x 11 x 6"""
+    inits = [[f"set {k} {v} - a" for k, v, on in zip(USER_KEYS, ("t:1", "i:5", "t:3"), bits) if on]
+             for bits in _products((False, True), 3)]
+    for ini in inits:
+        for w1 in [None] + PAT_WRITES:
+            for p1 in PAT_DELETES:
+                for w2 in [None] + PAT_WRITES:
+                    for p2 in [None] + PAT_DELETES:
+                        yield ini, w1, p1, w2, p2
+
+
+def _pattern_case(ini, w1, p1, w2, p2, mode: str, end: str) -> dict:
+    ev = [f"enter {mode}"]
+    if w1:
+        ev.append(w1)
+    ev.append(f"delmatch {enc(p1)}")
+    if w2:
+        ev.append(w2)
+    if p2 is not None:
+        ev.append(f"delmatch {enc(p2)}")
+    # what the transaction sees now: every key by value, by existence, and through the pattern reads
+    ev += ["getmany 0 2 4", f"scan {enc('k*')}", f"getmatch {enc('kb*')}", "exists 0", "set 2 t:6 - nx", f"exit {end}",
+           f"scan {enc('k*')}"]
+    return {"config": "facade", "init": ini + ["adv 3"], "events": ev}
+
+
+def pattern_cases(rng=None, sample: int = 0):
+    """`delete_match` in every position relative to one earlier and one later write (set / set with ttl / incr / delete /
+    expire / set only-if-absent / set only-if-present / delete_many / set_many, of matching and non-matching keys), over
+    every initial store of the three keys (so a matching key is only pending, only in the store, both, pending-deleted
+    or nowhere), followed or not by a second `delete_match` with the SAME or a DIFFERENT pattern (patterns selecting all
+    keys, two, one, none), then reads of everything from inside, the end of the block and a read from outside.
+    Without `rng`: the whole space, every point in fast mode (the plain backend's `delete_match`) and in one of the two
+    lock modes (the lock backend's; locked / serializable alternating), ended by commit (and every 7th also by an
+    exception).  With `rng`: `sample` points of the space drawn from it, one of the three modes each."""
+    space = list(pattern_space())
+    if rng is None:
+        for i, pt in enumerate(space):
+            yield _pattern_case(*pt, "fast", "ok")
+            yield _pattern_case(*pt, MODES[1 + i % 2], "ok")
+            if i % 7 == 0:
+                yield _pattern_case(*pt, MODES[i % 3], "exc")
+        return
+    for _ in range(sample):
+        yield _pattern_case(*rng.choice(space), rng.choice(MODES), "ok" if rng.random() < 0.85 else rng.choice(["exc", "cancel"]))
